@@ -140,12 +140,13 @@ def sensitivity(only=None, with_baseline=False):
                     dirs.append((patch, prop, "seeded/%s" % n))
     failed = 0
     for diff, prop, name in dirs:
-        if only and only not in name:
+        if only and not any(o and (o in name or o == prop) for o in str(only).split(",")):
             continue
         t0 = time.monotonic()
         scratch = _scratch_copy(diff)
         try:
-            env = dict(os.environ, DTSIM_REPO=scratch)
+            # one reproduced, minimised violation is enough here (the full check minimises up to six)
+            env = dict(os.environ, DTSIM_REPO=scratch, DTSIM_MAX_REPORT=os.environ.get("DTSIM_MAX_REPORT", "1"))
             env.pop("PYTHONHASHSEED", None)
             if with_baseline:
                 b = subprocess.run([os.path.join(core.VERIF, "bin", "baseline_check.py"), scratch], stdout=subprocess.PIPE, stderr=subprocess.STDOUT)
